@@ -296,6 +296,11 @@ pub fn run(sc: &Scenario) -> Outcome {
     let b_parsed: BTreeSet<String> = bs.emitted.keys().cloned().collect();
     let mut cs = cs;
     cs.pass2.retain(|l| b_parsed.iter().any(|n| l.starts_with(&format!("{n}: "))));
+    // the same rule on both sides: an error located in a restored file (met while elaborating
+    // an instance of it from a parsed file) is not part of the comparison, because the
+    // all-parsed context's list is restricted to the parsed files' locations too
+    let mut bs = bs;
+    bs.pass2.retain(|l| b_parsed.iter().any(|n| l.starts_with(&format!("{n}: "))));
     cs.emitted.retain(|k, _| b_parsed.contains(k));
     if bs.pass2 != cs.pass2 {
         let only_b: Vec<&String> = bs.pass2.iter().filter(|x| !cs.pass2.contains(x)).collect();
